@@ -206,6 +206,12 @@ func genCmd(args []string) {
 		genC04(g)
 	case "C13":
 		genC13(g)
+	case "C06":
+		genC06(g)
+	case "C07":
+		genC07(g)
+	case "C11":
+		genC11(g)
 	default:
 		fmt.Fprintln(os.Stderr, "no generator for", *prop)
 		os.Exit(2)
